@@ -27,6 +27,10 @@ type variable
   callback transformationFunc(cur, new) (r)
 type readableVariable
   monitor valueMutex level 7 guards value, uniqueUpdateID
+type set
+  monitor mutex level 6 guards
+type readableSet
+  monitor mutex level 7 guards uniqueUpdateID
 
 -- update ids: strictly increasing
 func uniqueID.Next
@@ -43,7 +47,7 @@ func newCallback
 -- false: nothing is held
 func callback.LockExecution
   requires c != nil && unlocked(c.executionMutex)
-  modifies monitor(c)
+  modifies monitor(c), lock(c.executionMutex)
   ensures r0 ==> held(c.executionMutex) && !c.unsubscribed && c.lastUpdate == updateID
   ensures !r0 ==> unlocked(c.executionMutex)
 
@@ -51,7 +55,7 @@ func callback.LockExecution
 func callback.LockExecution#sequential
   opt sequential
   requires c != nil && unlocked(c.executionMutex)
-  modifies c.lastUpdate
+  modifies c.lastUpdate, lock(c.executionMutex)
   ensures r0 <==> !old(c.unsubscribed) && !(updateID != 0 && updateID == old(c.lastUpdate))
   ensures r0 ==> held(c.executionMutex) && c.lastUpdate == updateID
   ensures !r0 ==> unlocked(c.executionMutex) && c.lastUpdate == old(c.lastUpdate)
@@ -59,6 +63,7 @@ func callback.LockExecution#sequential
 
 func callback.UnlockExecution
   requires c != nil && held(c.executionMutex)
+  modifies lock(c.executionMutex)
   ensures unlocked(c.executionMutex)
 
 -- the flag is set under the execution lock: it cannot change while a writer is between its check and the invocation
@@ -83,6 +88,7 @@ func variable.updateValue
   callback newValueGenerator(cur) (r)
   modifies monitor(v.readableVariable)
   ensures unlocked(v.readableVariable.valueMutex)
+  ensures r0 == r1 ==> len(r3) == 0 && r2 == 0          -- nobody is notified of a write that changes nothing
 
 -- what that critical section does (no other goroutine): previous value, new value stored, and - only if the value
 -- changed - the next update id and the callbacks registered at that moment, in registration order
@@ -153,4 +159,54 @@ func readableVariable.OnUpdate$1
   modifies (*createdCallback).unsubscribed, ghost(ds.llen), ghost(ds.lseq)
   ghost before call List.Remove: assert arg0 == *callbackElement
   ensures (*createdCallback).unsubscribed && unlocked((*createdCallback).executionMutex)
+
+-- ---------------------------------------------------------------------------------------------------------------
+-- Set (contracts instantiated for int elements; the ds.Set / ds.SetMutations model is contracts/trusted/dsiface.spec)
+
+-- one critical section of the value mutex: apply, next id, snapshot
+func set.apply
+  instantiate ElementType: int
+  opt twophase
+  requires s != nil && s.readableSet != nil && unlocked(s.readableSet.mutex) && s.readableSet.value != nil && s.readableSet.updateCallbacks != nil && mutations != nil
+  modifies monitor(s.readableSet), ghost(ds.smem), ghost(ds.salive), ghost(ds.madd), ghost(ds.mdel)
+  ensures unlocked(s.readableSet.mutex)
+
+-- what is reported is what happened: folding the reported mutations over the old contents gives the new contents,
+-- an element is reported added only if it was absent and deleted only if it was present (after the additions)
+func set.apply#sequential
+  instantiate ElementType: int
+  opt sequential
+  opt assume-no-overflow
+  requires s != nil && s.readableSet != nil && unlocked(s.readableSet.mutex) && s.readableSet.value != nil && s.readableSet.updateCallbacks != nil && mutations != nil
+  requires sel(ds.salive, s.readableSet.value) && sel(ds.salive, mutations)
+  modifies s.readableSet.uniqueUpdateID, ghost(ds.smem), ghost(ds.salive), ghost(ds.madd), ghost(ds.mdel)
+  ensures unlocked(s.readableSet.mutex) && r0 != nil
+  ensures forall e Int :: sel(sel(ds.smem, s.readableSet.value), e) <==> ((sel(sel(old(ds.smem), s.readableSet.value), e) || sel(sel(ds.smem, sel(ds.madd, r0)), e)) && !sel(sel(ds.smem, sel(ds.mdel, r0)), e))
+  ensures forall e Int :: sel(sel(ds.smem, sel(ds.madd, r0)), e) ==> !sel(sel(old(ds.smem), s.readableSet.value), e)
+  ensures r1 == old(s.readableSet.uniqueUpdateID) + 1 && s.readableSet.uniqueUpdateID == r1 && r1 != 0
+  ensures len(r2) == sel(ds.llen, s.readableSet.updateCallbacks)
+  ensures forall i Int :: 0 <= i && i < len(r2) ==> r2[i] == sel(sel(ds.lseq, s.readableSet.updateCallbacks), i)
+
+func set.replace
+  instantiate ElementType: int
+  opt twophase
+  requires s != nil && s.readableSet != nil && unlocked(s.readableSet.mutex) && s.readableSet.value != nil && s.readableSet.updateCallbacks != nil && elements != nil
+  modifies monitor(s.readableSet), ghost(ds.smem), ghost(ds.salive), ghost(ds.madd), ghost(ds.mdel)
+  ensures unlocked(s.readableSet.mutex)
+
+-- Replace: the set takes the contents of elements, and what is reported is the DIFFERENCE: folding it over the old
+-- contents gives the new contents
+func set.replace#sequential
+  instantiate ElementType: int
+  opt sequential
+  opt assume-no-overflow
+  requires s != nil && s.readableSet != nil && unlocked(s.readableSet.mutex) && s.readableSet.value != nil && s.readableSet.updateCallbacks != nil && elements != nil
+  requires sel(ds.salive, s.readableSet.value) && sel(ds.salive, elements) && elements != s.readableSet.value
+  modifies s.readableSet.uniqueUpdateID, ghost(ds.smem), ghost(ds.salive), ghost(ds.madd), ghost(ds.mdel)
+  ensures unlocked(s.readableSet.mutex) && r0 != nil
+  ensures forall e Int :: sel(sel(ds.smem, s.readableSet.value), e) <==> sel(sel(old(ds.smem), elements), e)
+  ensures forall e Int :: sel(sel(ds.smem, s.readableSet.value), e) <==> ((sel(sel(old(ds.smem), s.readableSet.value), e) || sel(sel(ds.smem, sel(ds.madd, r0)), e)) && !sel(sel(ds.smem, sel(ds.mdel, r0)), e))
+  ensures forall e Int :: sel(sel(ds.smem, sel(ds.madd, r0)), e) ==> !sel(sel(old(ds.smem), s.readableSet.value), e)
+  ensures forall e Int :: sel(sel(ds.smem, sel(ds.mdel, r0)), e) ==> sel(sel(old(ds.smem), s.readableSet.value), e)
+  ensures r1 == old(s.readableSet.uniqueUpdateID) + 1 && s.readableSet.uniqueUpdateID == r1 && r1 != 0
 @*/
